@@ -42,6 +42,7 @@
      implements (Spec/ImpSpecIB.v reads those amounts with ibs_num2, i.e. rounded);
      C13_interactivebrokers_two_places_exact says when that is the row's amount. *)
 From Coq Require Import ZArith QArith List Bool.
+From Knut Require Import Model.Imp.Revolut2Files Proofs.ImpProofsFiles.
 From Knut Require Import Model.Str Model.Dec Model.Date Model.Account Model.Ledger Model.Journal
      Model.ImpCommonA Model.ImpCommonB Model.Imp.Revolut2 Model.Imp.Revolut Model.Imp.Wise Model.Imp.Swissquote Model.Imp.Interactivebrokers
      Spec.TableSpec Spec.ImpSpecA Spec.ImpSpecB Spec.ImpSpecIB Proofs.DecValue Proofs.PairProofs Proofs.ImpProofsB Proofs.ImpProofsIB Proofs.ImpRunB.
@@ -87,6 +88,24 @@ Theorem C13_revolut2_faithful : forall acct feeacct rows,
     (forall d c v, In (mkBalFact d c v) bals <-> r2_closing (d, c) rows = Some v).
 Proof. exact revolut2_faithful. Qed.
 Print Assumptions C13_revolut2_faithful.
+
+(* `knut import revolut2 FILE...`: every file is imported on its own (its own parser, its own balance map) into one
+   journal: the directives of the run are the concatenation, in argument order, of what C13_revolut2_faithful says
+   about each file -- no assertion or transaction of one statement leaks into another (seeded change
+   C13d-revolut2-parser-reused kept the balance map across files and repeated the assertions of earlier files); the
+   first failing file fails the run. *)
+Theorem C13_revolut2_files : forall a f files dss,
+  Forall2 (fun file ds => import_revolut2 a f file = MOk ds) files dss ->
+  import_revolut2_files a f files = MOk (concat dss).
+Proof. exact revolut2_files_concat. Qed.
+Print Assumptions C13_revolut2_files.
+
+Theorem C13_revolut2_files_error : forall a f pre file post dss e,
+  Forall2 (fun file ds => import_revolut2 a f file = MOk ds) pre dss ->
+  import_revolut2 a f file = MErr e ->
+  import_revolut2_files a f (pre ++ file :: post) = MErr e.
+Proof. exact revolut2_files_error. Qed.
+Print Assumptions C13_revolut2_files_error.
 
 (* 2020-07-01 10:00:00, -16.95, fee 1.00, CHF, balance 779.65 *)
 Example C13_revolut2_row_wf :
